@@ -67,10 +67,17 @@ def cases(E):
                 cs.append(Case(H + "assemble_string_contract", f"parse_error={pe!r},resolve={ro},emit={eo}",
                                lambda B, pe=pe, ro=ro, eo=eo: {"program": program(B), "emitter": emitter(B), "parse_error": pe, "resolve_outcome": ro, "emit_outcome": eo},
                                target=[P + "assemble_string_with_emitter"], overrides=OVR_STR))
+    # no generator may swallow an error of the statements it expands (callee contracts raise every error class an expansion can fail with)
+    from vf.props import expansion
+    cs += expansion.cases(E)
+    # the top-level parser stops only at the end of the input (a token it cannot place is a syntax error, not a silent stop)
+    from vf.props import C15 as c15
+    cs += [c for c in c15.parser_cases(E) if c.label == "parse_initial"]
     return cs
 
 
-OPTIONAL_CHECKS = {"assemble_with_emitter_contract": ["exception_only_on_failure", "no_success_announced_on_exception", "same_call"],
+OPTIONAL_CHECKS = {"parser_function_contract": ["fails_with_a_syntax_error_only", "rejects_end_of_input", "whole_input_consumed", "progress"],
+                   "assemble_with_emitter_contract": ["exception_only_on_failure", "no_success_announced_on_exception", "same_call"],
                    "assemble_contract": ["exception_only_when_callee_raises", "status_propagated", "sfc_writer_on_output_file", "mapping_applied"],
                    "assemble_as_patch_contract": ["exception_only_when_callee_raises", "status_propagated", "ips_writer_on_output_file", "patch_framing", "mapping_applied"],
                    "assemble_string_contract": ["raises_only_when_a_phase_raised", "none_only_when_all_phases_clean", "phases_in_order", "error_message_returned",
